@@ -48,12 +48,36 @@ def gen_single(rng: random.Random, tier: str) -> dict:
             "end": 0.1 + 40 * hi + 1.0,
         }
     k = rng.choice([1, 2, 2, 2, 3, 3])
+    slow_links = rng.random() < 0.2
+    if slow_links:
+        # 5 nodes, 3 proposers, a fast network with one or two very slow directed links and a few lost messages:
+        # stale lower-ballot Prepare / Accept messages arrive long after a value was chosen; retries mostly far away
+        n, k = 5, 3
+        names = [f"n{i}" for i in range(n)]
+        retry_delay = rng.choice([0.5, 5.0, 5.0])
     proposers = rng.sample(names, min(k, n))
     t = retry_delay
     script = random_script(rng, names, MSG, timeout_scale=t)
+    if slow_links:
+        dl = rng.choice([0.005, 0.01, 0.02])
+        pairs = [(p, q) for p in names for q in names if p != q]
+        script = {
+            "seed": rng.randrange(1 << 30),
+            "family": "uniform",
+            "base": [round(dl / 2, 6), dl],
+            "loss": rng.choice([0.0, 0.05, 0.15]),
+            "asym": {f"{p}>{q}": rng.choice([30, 60, 100, 200]) for p, q in rng.sample(pairs, rng.choice([1, 2, 2]))},
+            "rules": [
+                {"src": rng.choice(names), "dst": rng.choice(names), "type": rng.choice(["PaxosPrepare", "PaxosAccept", "PaxosDecided"]),
+                 "nth": rng.choice([None, 0]), "delay": None, "drop": True}
+                for _ in range(rng.randrange(0, 6))
+            ],
+        }
     proposals = []
     for i, p in enumerate(proposers):
         off = rng.choice([0.0, 0.0, rng.uniform(0, 0.05 * t), rng.uniform(0, 0.5 * t), rng.uniform(0, 3 * t)])
+        if slow_links:
+            off = rng.choice([0.0, rng.uniform(0, 30 * dl), rng.uniform(0, 250 * dl)])
         proposals.append({"node": p, "value": f"v{i}-{p}", "at": round(0.1 + off, 6)})
     if rng.random() < 0.35:
         # one proposal carries a falsy value (legal client values; None is excluded: it is the "undecided" read-out)
@@ -71,7 +95,67 @@ def gen_single(rng: random.Random, tier: str) -> dict:
         "proposals": proposals,
         "partitions": gen_partitions(rng, names, 0.1, span) if rng.random() < 0.4 else [],
         "gseed": rng.randrange(1 << 30),
-        "end": round(0.1 + 40 * t, 6),
+        "end": round(0.1 + (600 * dl if slow_links else 40 * t), 6),
+    }
+
+
+def gen_single_adv(rng: random.Random, tier: str) -> dict:
+    """Scripted adversary (class "acceptor state must not regress after a value was chosen"):
+    5 nodes, three proposals.  a's Accept of a low ballot crawls towards acceptor c on a very slow link and is lost
+    towards everybody else; b's higher ballot is promised by a quorum that does NOT contain c but accepted by a quorum
+    that does (c accepts without ever having seen that Prepare), so B is chosen; only then the stale low-ballot Accept
+    reaches c; a third proposer gets a phase-1 quorum that meets the choosing quorum in c alone.
+    Roles, timing, jitter and the inessential messages are drawn at random; automatic retries are far away."""
+    names = [f"n{i}" for i in range(5)]
+    a, b, c, x, y = rng.sample(names, 5)
+    d = rng.choice([0.005, 0.01, 0.02])
+    t_a = 0.1
+    t_b = round(t_a + rng.uniform(6 * d, 25 * d), 6)
+    stale_delay = round((t_b - t_a) + rng.uniform(10 * d, 40 * d), 6)  # a->c Accept arrives after c accepted B
+    t_e = round(t_a + stale_delay + rng.uniform(6 * d, 25 * d), 6)
+    third = rng.choice([y, y, a])  # the third proposal comes from a node outside the choosing quorum {b, c, x}
+    rules = []
+
+    def rule(src, dst, typ, nth=0, **kw):
+        rules.append({"src": src, "dst": dst, "type": typ, "nth": nth, "delay": kw.get("delay"), "drop": kw.get("drop", False)})
+
+    # a: low ballot; its Accept reaches only c, and very late
+    if rng.random() < 0.5:
+        rule(a, c, "PaxosPrepare", drop=True)  # c may or may not have promised a's ballot
+    for z in (b, x, y):
+        rule(a, z, "PaxosAccept", drop=True)
+    rule(a, c, "PaxosAccept", delay=stale_delay)
+    # b: promised by {b, x, y} (+ a sometimes), accepted by {b, c, x}; a and y must not learn or accept B
+    rule(b, c, "PaxosPrepare", drop=True)
+    if rng.random() < 0.5:
+        rule(b, a, "PaxosPrepare", drop=True)
+    rule(b, a, "PaxosAccept", drop=True)
+    rule(b, y, "PaxosAccept", drop=True)
+    for z in (a, y):
+        rule(b, z, "PaxosDecided", drop=True)
+    # third proposer: phase-1 quorum = {third, the other outsider, c}
+    nth = 1 if third == a else 0
+    rule(third, b, "PaxosPrepare", nth=nth, drop=True)
+    rule(third, x, "PaxosPrepare", nth=nth, drop=True)
+    # noise that does not touch the skeleton: Nacks may be lost or slow
+    for _ in range(rng.randrange(0, 3)):
+        rules.append({"src": rng.choice(names), "dst": rng.choice(names), "type": "PaxosNack", "nth": None,
+                      "delay": rng.choice([None, 10 * d]), "drop": rng.random() < 0.5})
+    return {
+        "mode": "chaos",
+        "variant": "stale-accept-after-choice",
+        "n": 5,
+        "retry_delay": 50.0,
+        "script": {"seed": rng.randrange(1 << 30), "family": "uniform", "base": [round(d / 2, 6), d], "loss": 0.0, "rules": rules},
+        "roles": {"low": a, "high": b, "acceptor": c, "chooser": x, "outsider": y, "third": third},
+        "proposals": [
+            {"node": a, "value": rng.choice(["vA", "vA", 0, ""]), "at": t_a},
+            {"node": b, "value": "vB", "at": t_b},
+            {"node": third, "value": "vE", "at": t_e},
+        ],
+        "partitions": [],
+        "gseed": rng.randrange(1 << 30),
+        "end": round(t_e + 40 * d, 6),
     }
 
 
@@ -94,6 +178,9 @@ class SingleMonitor:
         self.max_promised: dict = {}  # node -> highest ballot it is known (from the wire) to have promised / accepted
         self.self_accept_possible: dict = {}  # (num, node) -> bool, at a phase-2 start of that ballot
         self.accepted_from: dict = {}  # (decider, ballot number) -> [sources of delivered PaxosAccepted]
+        self.last_accepted_sent: dict = {}  # acceptor -> highest ballot of its Accepted replies so far
+        self.stale_accepts = 0  # Accept deliveries whose ballot is below the receiver's highest Accepted reply so far
+        self.accepted_regressions: list = []  # (t, acceptor, earlier ballot, later lower ballot): precursor, never a verdict
         self.accept_dests: dict = {}  # (num, node) -> [destinations of its Accept messages]
         self.trigger: dict = {}  # node -> (event type, ballot_number)
         self.trace: list = []
@@ -128,6 +215,14 @@ class SingleMonitor:
                     self.self_accept_possible[b] = True
                 else:
                     self.self_accept_possible.setdefault(b, False)
+            if et == "PaxosAccepted":
+                b_ = (md.get("ballot_number"), md.get("ballot_node"))
+                src_ = md.get("source")
+                hi_ = self.last_accepted_sent.get(src_)
+                if hi_ is not None and b_ < hi_:
+                    self.accepted_regressions.append((round(ev.time.to_seconds(), 6), src_, list(hi_), list(b_)))
+                else:
+                    self.last_accepted_sent[src_] = b_
             if et in ("PaxosPrepare", "PaxosPromise", "PaxosAccepted"):
                 # the sender has promised (at least) this ballot
                 b = (md.get("ballot_number"), md.get("ballot_node"))
@@ -155,6 +250,10 @@ class SingleMonitor:
                 )
         elif id(tgt) in self.node_set:
             md = ev.context.get("metadata", {})
+            if et == "PaxosAccept":
+                hi_ = self.last_accepted_sent.get(tgt.name)
+                if hi_ is not None and (md.get("ballot_number"), md.get("ballot_node")) < hi_:
+                    self.stale_accepts += 1
             if et == "PaxosAccepted":
                 self.accepted_from.setdefault((tgt.name, md.get("ballot_number")), []).append(md.get("source"))
             if et == "PaxosRetry":
@@ -212,6 +311,9 @@ class SingleMonitor:
             dests = self.accept_dests.get(b, [])
             if len(srcs) > len(set(srcs)) and len(dests) > len(set(dests)) and legit < quorum:
                 return "phase2-resent-duplicate-accepted-counted-as-quorum"
+        if self.accepted_regressions:
+            # an acceptor replied Accepted for a lower ballot after a higher one (its accepted state went back)
+            return "acceptor-accepted-lower-ballot-after-higher"
         return "no-known-precursor"
 
     def diagnose_unproposed(self, node_name, value) -> str:
@@ -333,6 +435,10 @@ def run_single(case: dict) -> Result:
     status = run_sim(sim, res)
     res.count("samples", mon.n_samples)
     res.count("retries", mon.n_retries)
+    if mon.accepted_regressions:
+        res.count("precursor_acceptor_ballot_regressions", len(mon.accepted_regressions))
+    if case.get("variant") == "stale-accept-after-choice":
+        res.count("scripted_adversary_runs")
     if status != "completed":
         return res
 
@@ -357,6 +463,13 @@ def run_single(case: dict) -> Result:
         elif fut is None or not fut.is_resolved:
             res.add("bounded-liveness", COMP, "future-unresolved-after-decision", "single proposer's future never resolved", None)
         res.nontrivial = len(decided) == n
+    elif case.get("variant") == "stale-accept-after-choice":
+        first_hand = [nm for nm, tr in mon.trigger.items() if tr[0] == "PaxosAccepted"]
+        # the skeleton really happened: a stale lower-ballot Accept reached an acceptor that had already replied Accepted
+        # for a higher ballot, and two proposers each gathered their own Accepted quorum
+        res.nontrivial = mon.stale_accepts >= 1 and len(first_hand) >= 2
+        if mon.stale_accepts:
+            res.count("stale_accepts_delivered", mon.stale_accepts)
     else:
         res.nontrivial = mon.promise_overlap and len(case["proposals"]) >= 2
         if mon.promise_overlap:
